@@ -54,6 +54,9 @@ def sh(cmd, timeout=None, cwd=None, mem_gb=None, env=None):
         if mem_gb:
             resource.setrlimit(resource.RLIMIT_AS, (int(mem_gb * 2**30), int(mem_gb * 2**30)))
         os.setsid()
+        try:
+            import ctypes; ctypes.CDLL('libc.so.6').prctl(1, 9)   # PR_SET_PDEATHSIG: do not outlive the driver
+        except Exception: pass
     t0 = time.time()
     try:
         p = subprocess.Popen(cmd, stdout=subprocess.PIPE, stderr=subprocess.PIPE, cwd=cwd, preexec_fn=lim, env=env)
@@ -156,12 +159,12 @@ class Runner:
         if trace_property: cmd += ['--trace', '--property', trace_property]
         return cmd
 
-    def run_cbmc(self, ob, extra_defines=(), trace_property=None, backend=None):
-        to = ob.timeout or (180 if self.tier == 'quick' else 1800)
+    def run_cbmc(self, ob, extra_defines=(), trace_property=None, backend=None, timeout=None):
+        to = timeout or ob.timeout or (180 if self.tier == 'quick' else 1800)
         cmd = self.cbmc_cmd(ob, extra_defines, trace_property, backend)
         env = dict(os.environ); env['PATH'] = os.path.join(ROOT, 'tools', 'shim') + ':' + env['PATH']
         rc, out, err, t = sh(cmd, timeout=to, mem_gb=12, env=env)
-        r = {'rc': rc, 'time_s': round(t, 2), 'props': [], 'errors': [], 'cmd': ' '.join(cmd)}
+        r = {'rc': rc, 'time_s': round(t, 2), 'props': [], 'errors': [], 'cmd': ' '.join(cmd), 'backend_used': backend or ob.backend}
         if rc == -999:
             r['status'] = 'timeout'; return r
         try:
@@ -216,9 +219,9 @@ class Runner:
             return '0x%xULL' % x
         return '0'
 
-    def make_replay(self, ob, extra_defines, prop_name, descr):
+    def make_replay(self, ob, extra_defines, prop_name, descr, backend=None):
         u = self.units[ob.unit]
-        r = self.run_cbmc(ob, extra_defines, trace_property=prop_name)
+        r = self.run_cbmc(ob, extra_defines, trace_property=prop_name, backend=backend)
         trace = None
         for p in r.get('props', []):
             if p['property'] == prop_name and p.get('trace'): trace = p['trace']
@@ -313,7 +316,7 @@ class Runner:
             inconclusive.append(str(e)); kres = []
         # ---- evaluate
         nq = 0; solver_s = 0.0; samples = []; nontrivial = 0
-        for name, (ob, kfd, r) in sorted(results.items()):
+        for name, (ob, kfd, r) in sorted(list(results.items())):
             nq += 1 + (1 if 'retried_from' in r else 0); solver_s += r['time_s']
             if r['status'] == 'pass':
                 if len(r['witnesses_fired']) < ob.min_witnesses or 'end' in r['witnesses_dead']:
@@ -321,8 +324,30 @@ class Runner:
                 else:
                     nontrivial += 1
             elif r['status'] == 'fail':
-                pn, descr = r['failed'][0]
-                rdir, status, out = self.make_replay(ob, kfd, pn, descr)
+                # prefer an assertion of the harness itself (a statement of the property) over failures inside models
+                own = [x for x in r['failed'] if x[0].startswith(ob.fn + '.')]
+                lock = [x for x in r['failed'] if x[1].startswith('lockstep:')]
+                pn, descr = (own or r['failed'])[0]
+                if lock:
+                    # reference model and (changed?) implementation no longer multiply the same operands in the same order, so the
+                    # shared-circuit verdicts mean nothing.  The input on which the operand sequences diverge is replayed natively
+                    # (real arithmetic on both sides): if the results differ there, that is the violation.  Otherwise the obligation
+                    # is decided again without sharing (-DNO_LOCKSTEP) on the SMT back end with a long budget.
+                    rdir, status, out = self.make_replay(ob, kfd, lock[0][0], lock[0][1], backend=r.get('backend_used'))
+                    if status != 'reproduced':
+                        r2 = self.run_cbmc(ob, list(kfd) + ['NO_LOCKSTEP'], backend=getattr(ob, 'fallback_backend', 'cvc5'), timeout=900)
+                        nq += 1; solver_s += r2['time_s']
+                        if r2['status'] == 'pass':
+                            nontrivial += 1; results[name] = (ob, kfd, r2); continue
+                        if r2['status'] != 'fail':
+                            inconclusive.append('obligation %s: operand sequences of implementation and reference differ and the unshared query gave %s' % (name, r2['status'])); continue
+                        own = [x for x in r2['failed'] if x[0].startswith(ob.fn + '.')]
+                        pn, descr = (own or r2['failed'])[0]
+                        rdir, status, out = self.make_replay(ob, list(kfd) + ['NO_LOCKSTEP'], pn, descr, backend=r2.get('backend_used'))
+                    elif own:
+                        descr = 'result differs from the reference on the input where the multiplication sequences diverge (%s)' % own[0][1]
+                else:
+                    rdir, status, out = self.make_replay(ob, kfd, pn, descr, backend=r.get('backend_used'))
                 violations.append({'obligation': name, 'violated': ['%s [%s]' % (d, p) for p, d in r['failed']][:6], 'replay': rdir, 'replay_status': status,
                                    'replay_output': out[-600:]})
             else:
